@@ -76,7 +76,11 @@ def check_rec(ctx, kind, c, desc):
     # seconds accumulates 1e-12 s): the count / end-anchor oracles are then not judged (same rule as C14)
     noisy = (not nominal) and not _exact_float(desc["anchor"], ddesc)
     if noisy and n_eff is not None and len(pts) != n_eff:
-        ctx.count("series_not_judged_float_noise")
+        # "exactly n points" has no tolerance clause: a series that loses (or gains) its last point because the bound
+        # test flips on accumulated rounding noise breaks the statement; reported under its own signature
+        ctx.count("series_with_wrong_count_in_float_noise_domain")
+        ctx.violation("count", dict(sig, single=single, float_noise_domain=True), case, n_eff,
+                      {"len": len(pts), "points": shown()})
         return r
     # O1 count
     if n_eff is not None:
@@ -230,7 +234,7 @@ def run_unit(unit, ctx):
     c = M.cal(kind)
     anchor = recur.anchors(kind, ctx.tier)[ai]
     ns = recur.NS if ctx.tier == "quick" else recur.NS + [13]
-    for d in recur.EXACT + recur.NOMINAL:
+    for d in recur.EXACT + recur.EXACT_DECIMAL + recur.NOMINAL:
         for n in ns:
             for fmt in (3, 4, 1):
                 if fmt == 1 and recur.is_nominal(d):
